@@ -1661,8 +1661,9 @@ func (g Gateway) SubscribeToEvents(in *hydrapb.SubscribeToEventsRequest, eventSe
 		// convert the status type to the protobuf format
 		convertedStatusType := convertTreasureStatusToPbStatus(event.StatusType)
 
-		// convert the event time to the protobuf format
-		convertedEventTime := timestamppb.New(time.Unix(event.EventTime, 0))
+		// convert the event time to the protobuf format; the swamp stamps events with
+		// time.Now().UnixNano(), so the value is nanoseconds since the epoch, not seconds
+		convertedEventTime := timestamppb.New(time.Unix(0, event.EventTime))
 		convertedOldTreasure := &hydrapb.Treasure{}
 		convertedDeletedTreasure := &hydrapb.Treasure{}
 
